@@ -392,6 +392,7 @@ def c06_run(C):
     from magpylib._src.fields import field_wrap_BH as W
 
     spec = C.case["scene"]
+    C.concrete_trace(replay, {"kind": "level2-c06", "scene": spec, "env": {}}, f"C06|getBH_level2|{C.case['id']}|concrete")
 
     def run():
         sc = Scene(spec)
